@@ -308,6 +308,8 @@ class Emit:
         """the Lean variable a mutable place is translated to: a local, or a field path listed in `fieldpath`"""
         while x[0] == "mcall" and x[2] in self.cfg.get("lockmethods", ()) and not x[3]:
             x = x[1]                                      # `self.store.write().unwrap()`: the place behind the lock
+        if x[0] == "mcall" and x[1] == ("path", ["self"]) and not x[3] and x[2] in self.cfg.get("placemethods", {}):
+            return self.cfg["placemethods"][x[2]]         # `self.get_main_store_mut()`: an accessor that hands out the place
         d = self.dotted(x)
         if d is None:
             return None
@@ -333,6 +335,9 @@ class Emit:
                 add(self.lhs_name(x[1]))
             elif x[0] == "assign" and x[1][0] == "mcall" and x[1][2] in self.cfg.get("setters", {}) and self.lhs_name(x[1][1]) is not None:
                 add(self.lhs_name(x[1][1]))
+            elif self.selfopt_stmt(x) is not None:
+                for v in self.selfopt_stmt(x)[0]:
+                    add(v)
             elif self.foreach_target(x) is not None:
                 add(self.foreach_target(x)[0])
             elif x[0] == "mcall" and x[2] in self.cfg.get("selfmut", {}) and x[1] == ("path", ["self"]):
@@ -385,6 +390,13 @@ class Emit:
         if x == ("path", ["self"]) and self.cfg.get("selfvar"):
             return self.cfg["selfvar"]
         return self.lhs_name(x)
+
+    def selfopt_stmt(self, x):
+        """`self.m(args);` for a `&mut self` method that writes several places and may panic: (pattern of the places, Lean call)"""
+        if x[0] == "mcall" and x[1] == ("path", ["self"]) and x[2] in self.cfg.get("selfopt", {}):
+            places, tmpl = self.cfg["selfopt"][x[2]]
+            return places, tmpl.format(*[self.atom(a) for a in x[3]])
+        return None
 
     def valbranch(self, x, w, wrap):
         """a value-carrying branch with effects: the Lean value is `wrap((value, w…))` with `w` the outer variables it assigns"""
@@ -531,6 +543,9 @@ class Emit:
             argi, tmpl = self.cfg["selfmut"][x[2]]
             v = argi if isinstance(argi, str) else self.lhs_name(x[3][argi])
             return "let %s := (%s);\n    %s" % (v, tmpl.format(*[self.atom(a) for a in x[3]]), tailstr())
+        if self.selfopt_stmt(x) is not None:
+            places, call = self.selfopt_stmt(x)
+            return "(match %s with\n    | some %s => (%s)\n    | none => none)" % (call, self.tup(list(places)), tailstr())
         if x[0] == "mcall" and x[2] in ("unwrap", "expect") and x[1][0] == "mcall" and x[1][2] in self.cfg.get("optmut", {}) \
                 and self.lhs_name(x[1][1]) is not None:        # `place.m(args).unwrap();`: the mutation may fail, which panics here
             v = self.lhs_name(x[1][1])
@@ -599,6 +614,9 @@ class Emit:
             if tail is not None and not (tail[0] == "call" and tail[1] == ("path", ["Ok"])) and not (tail == ("path", ["self"]) and self.cfg["result"] == "self"):
                 st.append(("expr", tail))
             return "(" + self.imp(st, self.cfg["result"]) + ")"
+        if tail is not None and "retwrap" in self.cfg and tail[0] == "mcall" and tail[2] in self.cfg.get("effmethods", {}):
+            stmts = list(stmts) + [("let", ("pvar", "__r"), tail)]      # `place.m(args)` in tail position: its value, after its effect
+            tail = ("path", ["__r"])
         if tail is None:
             raise Unsupported("imperative body without a value")
         if "retwrap" in self.cfg:
@@ -1420,6 +1438,27 @@ KERNELS += [
          method={"into_iter": "{0}", "filter": "List.filter {1} {0}", "collect": "{0}", "is_some": "Option.isSome {0}"}),
 ]
 
+# ---- expiry collection: the default methods of `TrackerAPI` (C03)
+GC_PARAMS = "{T DB E : Type} (findUsable : E → DB → List (Nat × Status)) (fetchTracks : DB → List Nat → DB × List T) (addTrack : DB → T → Option DB)"
+GC_COMMON = dict(group="Gc", file="trackers/tracker_api.rs", impl=r"pub trait TrackerAPI<TA, M, OA, E, N>[^{]*\{", imperative=True, value_effects=True, unwrap_panics=True,
+                 placemethods={"get_main_store_mut": "main", "get_wasted_store_mut": "wst", "get_main_store": "main", "get_wasted_store": "wst", "get_opts": "epochs"},
+                 pctor={"TrackStatus::Wasted": "Status.wasted"}, transparent_ctors=("Ok",),
+                 method={"get_main_store_mut": "main", "get_wasted_store_mut": "wst", "get_opts": "epochs", "find_usable": "findUsable epochs {0}",
+                         "into_iter": "{0}", "filter": "List.filter {1} {0}", "map": "List.map {1} {0}", "collect": "{0}"})
+GC = [
+    dict(GC_COMMON, name="gc_main_store_wasted", fn="get_main_store_wasted", sig=GC_PARAMS + " (epochs : E) (main : DB) : DB × List T",
+         retwrap="(main, {0})", effmethods={"fetch_tracks": ("fetchTracks {0} {1}",)}),
+    dict(GC_COMMON, name="gc_auto_waste", fn="auto_waste", sig=GC_PARAMS + " (epochs : E) (main wst : DB) : Option (DB × DB)",
+         result="some (main, wst)", selfvar="main", effmethods={"get_main_store_wasted": ("gc_main_store_wasted findUsable fetchTracks addTrack epochs {0}",)},
+         optmut={"add_track": "addTrack {0} {1}"}),
+    dict(GC_COMMON, name="gc_wasted", fn="wasted", sig=GC_PARAMS + " (epochs : E) (main wst : DB) : Option ((DB × DB) × List T)",
+         retwrap="some ((main, wst), {0})", effmethods={"fetch_tracks": ("fetchTracks {0} {1}",)},
+         selfopt={"auto_waste": (("main", "wst"), "gc_auto_waste findUsable fetchTracks addTrack epochs main wst")}),
+    dict(GC_COMMON, name="gc_skip_epochs_for_scene", fn="skip_epochs_for_scene", sig=GC_PARAMS + " (skipFn : E → Nat → Nat → E) (epochs : E) (main wst : DB) (scene_id n : Nat) : Option (E × DB × DB)",
+         result="some (epochs, main, wst)", mutmethods={"skip_epochs_for_scene": "skipFn {0} {1} {2}"},
+         selfopt={"auto_waste": (("main", "wst"), "gc_auto_waste findUsable fetchTracks addTrack epochs main wst")}),
+]
+
 # ---- the per-detection loop of `Sort::predict_with_scene`: apply the winners, one record per detection (C01)
 def pick_apply(stmts):
     """from `let mut res = Vec::default();` to the loop that fills it (the tail `res` is the value)"""
@@ -1571,7 +1610,7 @@ LOGIC = [
 def gen(repo, cfgs, header, footer):
     out, unread = [header], []
     for c in cfgs:
-        if c in LOGIC or c in TRACK or c in VOTING or c in TRACK_DIST or c in STORE or c in RECORDS or c in AUTOWASTE or c in VISVOTE or c in STORE_MAP or c in STORE_ADD or c in SORTVOTE or c in IDLE or c in TRACK_BUILD or c in APPLY:
+        if c in LOGIC or c in TRACK or c in VOTING or c in TRACK_DIST or c in STORE or c in RECORDS or c in AUTOWASTE or c in VISVOTE or c in STORE_MAP or c in STORE_ADD or c in SORTVOTE or c in IDLE or c in TRACK_BUILD or c in APPLY or c in GC:
             c = dict(c, scalar=c.get("scalar", "Rat"))
         path = os.path.join(repo, "src", c["file"])
         try:
@@ -1874,6 +1913,7 @@ def main():
     jobs.append(("LStoreMap.lean", STORE_MAP + STORE_ADD, "import SimVerif.Model.Track\n" + HEADER_L + PRELUDE_STOREMAP, "SimVerif.Gen.L"))
     jobs.append(("LSortVoting.lean", SORTVOTE, "import SimVerif.Gen.LBase\n" + HEADER_L + PRELUDE_SORTVOTE, "SimVerif.Gen.L"))
     jobs.append(("LIdle.lean", IDLE, "import SimVerif.Gen.LEpoch\nimport SimVerif.Gen.LEpochDb\n" + HEADER_L, "SimVerif.Gen.L"))
+    jobs.append(("LGc.lean", GC, "import SimVerif.Gen.LEpoch\n" + HEADER_L, "SimVerif.Gen.L"))
     jobs.append(("LApply.lean", APPLY, "import SimVerif.Gen.LBase\n" + HEADER_L, "SimVerif.Gen.L"))
     jobs.append(("LTrackBuild.lean", TRACK_BUILD, "import SimVerif.Model.Track\n" + HEADER_L + "open SimVerif\n", "SimVerif.Gen.L"))
     jobs.append(("LTrackDist.lean", TRACK_DIST, "import SimVerif.Gen.LTrack\nimport SimVerif.Model.Track\n" + HEADER_L + PRELUDE_TRACKDIST, "SimVerif.Gen.L"))
